@@ -233,8 +233,20 @@ func runC10(c *Ctx) {
 			if bad == "" && hasT {
 				// which record types can this site carry?
 				var rts []int64
+				rtCond := map[int64]Ref{}
 				if v, ok := rt.IntVal(); ok {
 					rts = []int64{v}
+				} else if rt.Op == "ite" {
+					// a record type chosen by a condition: each alternative under its own condition
+					for leaf, lc := range u.Leaves(rt) {
+						if v, ok := leaf.IntVal(); ok {
+							rts = append(rts, v)
+							rtCond[v] = u.bdd.Or(rtCond[v], u.bdd.And(site.cond, lc))
+						} else {
+							bad = "UNDECIDED: record type of unknown provenance " + clip(u.Show(leaf), 60)
+						}
+					}
+					sort.Slice(rts, func(i, j int) bool { return rts[i] < rts[j] })
 				} else if isHandler && len(ps) >= 2 && rt == ps[1] {
 					rts = keysOf[fn]
 				} else if fn == dispatcher {
@@ -246,6 +258,10 @@ func runC10(c *Ctx) {
 					bad = "UNDECIDED: record type of unknown provenance " + clip(u.Show(rt), 60)
 				}
 				for _, t := range rts {
+					siteCond := site.cond
+					if cnd, ok := rtCond[t]; ok {
+						siteCond = cnd
+					}
 					want, needV := allowedVal[t]
 					if !needV {
 						if hasV {
@@ -271,9 +287,9 @@ func runC10(c *Ctx) {
 						// provenance: extract#0 of netip.ParseAddr; guarded by err == nil and the family test
 						var perr Ref = False
 						var is4, is6 Ref = False, False
-						for _, at := range u.AtomsOf(site.cond) {
+						for _, at := range u.AtomsOf(siteCond) {
 							if at.Op == "eq" && at.Args[1].IsNil() && at.Args[0].Op == "extract" && at.Args[0].Aux == "1" && at.Args[0].Args[0].Op == "call" && at.Args[0].Args[0].Aux == "net/netip.ParseAddr" &&
-								inner.Op == "extract" && inner.Args[0] == at.Args[0].Args[0] && u.bdd.Implies(site.cond, u.Atom(at)) {
+								inner.Op == "extract" && inner.Args[0] == at.Args[0].Args[0] && u.bdd.Implies(siteCond, u.Atom(at)) {
 								perr = u.Atom(at)
 							}
 							if at.Op == "call" && at.Aux == "(net/netip.Addr).Is4" && at.Args[0] == inner {
@@ -285,9 +301,9 @@ func runC10(c *Ctx) {
 						}
 						if perr == False {
 							bad = fmt.Sprintf("the address stored for record type %d is not known to have parsed successfully here (the zero netip.Addr is neither IPv4 nor IPv6)", t)
-						} else if t == types_["TypeA"] && !(is4 != False && u.bdd.Implies(site.cond, is4)) {
+						} else if t == types_["TypeA"] && !(is4 != False && u.bdd.Implies(siteCond, is4)) {
 							bad = "an A rewrite is built outside the true edge of Is4()"
-						} else if t == types_["TypeAAAA"] && !((is6 != False && u.bdd.Implies(site.cond, is6)) || (is4 != False && u.bdd.Implies(site.cond, u.bdd.Not(is4)))) {
+						} else if t == types_["TypeAAAA"] && !((is6 != False && u.bdd.Implies(siteCond, is6)) || (is4 != False && u.bdd.Implies(siteCond, u.bdd.Not(is4)))) {
 							bad = "an AAAA rewrite is built without Is6() (or not Is4()) being established"
 						}
 					case types_["TypeMX"], types_["TypeSRV"], types_["TypeHTTPS"], types_["TypeSVCB"]:
